@@ -321,6 +321,10 @@ def run(tier, seed, replay=None):
         return rep.finish(rule='replay', min_distinct=0)
     rng = random.Random(seed * 1000003 + 14)
     cases = []
+    # a database flushed only a few times (flush count 2-3) with two-entry rows: scripts end up with far more compacted rows than the
+    # flush count - the configuration of the recorded finding (kill between the last batch and set_flush_count), exercised on every run
+    cases.append({'dbid': 99, 'seed': rng.randrange(1 << 30), 'n0': 22, 'flushkind': 'none', 'flushvec': None, 'row_entries': 2,
+                  'batch_limit': 200, 'prefetch': 100, 'mode': 'kill-before-set-flush-count'})
     ndb = 5 if tier == 'quick' else 16
     for d in range(ndb):
         fk = ('allF', 'alt', 'random', 'allH', 'HrunF')[d % 5]
